@@ -395,6 +395,43 @@ def grid(tier_full, protos=('v2', 'loose')):
     return cases
 
 
+def random_cases(rng, n):
+    """seeded random timed scenarios: 1-5 members, handler durations anywhere around the
+    processing timeout (never equal to it or to each other), one pause window anywhere"""
+    out = []
+    for _ in range(n):
+        proto = rng.choice(['v2', 'loose'])
+        style = proto
+        pt = rng.choice([3.0, 10.0])
+        k = rng.randint(1, 5)
+        members, durs = [], []
+        same_id = rng.random() < 0.3
+        for m in range(k):
+            r = rng.random()
+            if r < 0.7:
+                members.append(_req(style, m, 7 if same_id else m + 1))
+                d = rng.choice([0, rng.randint(1, int(pt * 10) - 1) / 10, pt + rng.randint(1, 30) / 10])
+                durs.append(0 if d == 0 else d + 0.01 * (m + 1))
+            elif r < 0.85:
+                members.append(_req(style, m, None))
+                durs.append(None)
+            else:
+                members.append(dict(_req(style, m, 30 + m), method=1))
+                durs.append(None)
+        a = b = None
+        if rng.random() < 0.85:
+            a = rng.randint(0, int(pt * 12)) / 10 + 0.005
+            b = a + rng.randint(1, int(pt * 10)) / 10
+        c = {'proto': proto, 'max': 0, 'pt': pt, 'dur': durs, 'pause': a, 'resume': b,
+             'via': rng.choice(['write', 'env'])}
+        if k == 1 and rng.random() < 0.5:
+            c['single'] = members[0]
+        else:
+            c['members'] = members
+        out.append(c)
+    return out
+
+
 def run(ctx, res):
     c02 = _c02()
     if c02.unlisted_failure(ctx, res):
@@ -404,6 +441,8 @@ def run(ctx, res):
     cases = grid(full)
     if c02.unlisted_failure(ctx, res):
         cases = cases[::7]
+    else:
+        cases += random_cases(ctx.rng, 6000 if ctx.tier == 'thorough' else 1500 if full else 150)
     evaluate(ctx, cases, res)
 
 
